@@ -1,6 +1,6 @@
 (* Extract.v — extraction of the executable model to OCaml (ExtrOcamlBasic only: bool, option, unit, list,
    prod, sumbool, sumor mapped to OCaml's; N, Z, positive, nat stay the extracted inductive types). *)
-Require Import Base Cbor EncoderModel Timestamp DecoderModel Schema Block Exporter Writer Merge E2ESpec ExporterIO.
+Require Import Base Cbor EncoderModel Timestamp DecoderModel Schema Block Exporter Writer Merge E2ESpec ExporterIO ExporterFaults.
 Require Extraction.
 Require Import ExtrOcamlBasic.
 Extraction Blacklist String List Nat Int.
@@ -19,4 +19,4 @@ Extraction "model.ml"
   add_to blk_clear blk_of_rb tbs_of_tables bp_of_val xstep xrun
   named_trace fd_trace czip outputs_of fd_calls named_calls fout_new enc_rotate_fd lost
   merge_bytes merge_run itemcount_blocks itemcount_total
-  exp_qr exp_mm exp_aec log_qr log_mm log_aec log_aec_keys count_key dkey dec_total okey_eqb has_tyb typed_xb admb merge_okb qr_guard add_qr_item add_mm_item add_aec_item run_wops destroy_wops.
+  exp_qr exp_mm exp_aec log_qr log_mm log_aec log_aec_keys count_key dkey dec_total okey_eqb has_tyb typed_xb admb merge_okb qr_guard add_qr_item add_mm_item add_aec_item run_wops destroy_wops fstep fx_new fdestroy.
